@@ -891,3 +891,88 @@ V("C17-ior-none", "C17", "DictProxy.__ior__ returns None", DICT,
 V("C17-benign-setitem-rewrite", "C17", "__setitem__ with early return instead of else", LIST, expect="silent",
   old="        if isinstance(index, slice):\n            super().__setitem__(index, [self._validate(i) for i in item])\n        else:\n            super().__setitem__(index, self._validate(item))",
   new="        if isinstance(index, slice):\n            super().__setitem__(index, [self._validate(i) for i in item])\n            return\n        super().__setitem__(index, self._validate(item))")
+
+# ------------------------------------------------------------------------------------------ C13
+V("C13-list-default-shared", "C13", "untyped ListField stores the declared default object itself", LIST,
+  "            else:\n                default = list(default)\n        cfg._set_default_value(self._key, default)",
+  "        cfg._set_default_value(self._key, default)", expect_rule="default.fresh @ ListField.__setdefault__")
+V("C13-dict-default-shared", "C13", "DictField without proxy stores the declared default object itself", DICT,
+  "        elif default is not None:\n            default = dict(default)\n", "", expect_rule="default.fresh @ DictField.__setdefault__")
+V("C13-to_tree-no-copy", "C13", "to_tree merges dynamic fields into the schema's own table", CORE,
+  "        fields: Dict[str, BaseField] = dict(self._schema._fields)", "        fields: Dict[str, BaseField] = self._schema._fields",
+  expect_rule="schema-fields.single-owner")
+V("C13-dynamic-field-on-schema", "C13", "dynamic fields registered on the schema", CORE,
+  "            field = self._fields[key] = AnyField()", "            field = self._schema._fields[key] = AnyField()", expect_rule="schema-fields.single-owner")
+V("C13-field-remembers-last", "C13", "StringField remembers the last validated value", STR,
+  "            raise ValueError(\"value is not a valid choice\" + postfix)\n\n        return value",
+  "            raise ValueError(\"value is not a valid choice\" + postfix)\n\n        self.last_value = value\n        return value",
+  expect_rule="field.stateless @ StringField._validate")
+V("C13-field-counts-in-helper", "C13", "field state written through a helper called at run time", NUM, edits=[
+    (NUM, "        return num\n", "        self._note(num)\n        return num\n\n    def _note(self, num):\n        self.seen = num\n")],
+  expect_rule="field.stateless")
+V("C13-choices-appended", "C13", "LogLevelField appends unknown levels to its choices", STR,
+  "        if self.choices and value not in self.choices:\n            if len(self.choices) < 6:",
+  "        if self.choices and value not in self.choices and value.startswith(\"x-\"):\n            self.choices.append(value)\n        if self.choices and value not in self.choices:\n            if len(self.choices) < 6:",
+  expect_rule="field.stateless")
+V("C13-runtime-getattr-on-schema", "C13", "get_fields reads an attribute off the Schema (creates a field)", SUP,
+  "    fields = list(schema._fields.items())\n    if isinstance(schema, Config):",
+  "    fields = list(schema._fields.items())\n    if isinstance(schema, Schema) and schema.hidden:\n        return []\n    if isinstance(schema, Config):",
+  expect_rule="schema.no-creating-accessor-at-runtime")
+V("C13-validators-appended-at-runtime", "C13", "a run-time method registers a validator on the schema", CORE,
+  "        if not self._is_feature_enabled(config):\n            return []",
+  "        if not self._is_feature_enabled(config):\n            self._validators.append(lambda cfg: None)\n            return []",
+  expect_rule="field.stateless")
+V("C13-benign-proxy-default", "C13", "ListField default wrapped by list() before the proxy", LIST, expect="silent",
+  old="                default = ListProxy(cfg, self, default)", new="                default = ListProxy(cfg, self, list(default))")
+
+# ------------------------------------------------------------------------------------------ C14
+V("C14-no-skip", "C14", "load_tree no longer skips keys whose variable is set", CORE,
+  """                if (
+                    isinstance(field.env, str)
+                    and field.env
+                    and os.environ.get(field.env)
+                ):
+                    continue
+
+""", "", expect_rule="skip.exists")
+V("C14-skip-when-declared", "C14", "load_tree skips whenever a variable name is declared (even unset)", CORE,
+  "                    and field.env\n                    and os.environ.get(field.env)\n                ):", "                    and field.env\n                    and os.environ.get(field.env) is not None\n                ):",
+  expect_rule="skip.")
+V("C14-env-raw", "C14", "environment value applied without validation", CORE,
+  """                try:
+                    env_value = self.validate(cfg, env_value)
+                except ValidationError:
+                    raise
+                except Exception as exc:
+                    raise ValidationError(cfg, self, exc) from exc
+                else:
+                    value = env_value""", "                value = env_value", expect_rule="env.validated-value-applied")
+V("C14-default-overrides-env", "C14", "declared default overwrites the environment value", CORE,
+  "        if value is None:\n            value = self.default\n\n        cfg._set_default_value(self._key, value)",
+  "        if self.default is not None:\n            value = self.default\n\n        cfg._set_default_value(self._key, value)",
+  expect_rule="env.default-only-without-variable")
+V("C14-set_value-reads-env", "C14", "assignment consults the environment", CORE,
+  "            try:\n                value = field.validate(self, value)\n                field.__setval__(self, value)",
+  "            try:\n                if isinstance(field.env, str) and os.environ.get(field.env):\n                    value = os.environ.get(field.env)\n                value = field.validate(self, value)\n                field.__setval__(self, value)",
+  expect_rule="env-read.sites")
+V("C14-validate-reads-env", "C14", "StringField._validate substitutes a variable", STR,
+  "        if not isinstance(value, str):\n            raise ValueError(\"value must be a string, not a %s\" % type(value).__name__)\n\n        if self.transform_strip:",
+  "        if not isinstance(value, str):\n            raise ValueError(\"value must be a string, not a %s\" % type(value).__name__)\n        import os\n        value = os.environ.get(\"OVERRIDE_\" + self._key.upper()) or value\n\n        if self.transform_strip:",
+  expect_rule="env-read.sites")
+V("C14-bytes-setdefault-no-env", "C14", "a new __setdefault__ override (BytesField) bypasses the env route", BYTES,
+  "    def _validate(self, cfg: Config, value: Any) -> bytes:\n        if isinstance(value, str):",
+  "    def __setdefault__(self, cfg: Config) -> None:\n        cfg._set_default_value(self._key, self.default)\n\n    def _validate(self, cfg: Config, value: Any) -> bytes:\n        if isinstance(value, str):",
+  expect_rule="sibling @ BytesField.__setdefault__")
+V("C14-optout-ignored", "C14", "env=False no longer opts out", CORE,
+  "        if self.env is False:\n            return\n\n        if self.env is True or (", "        if self.env is True or self.env is False or (", expect_rule="name.opt-out")
+V("C14-name-lowercase", "C14", "derived variable name not upper-cased", CORE,
+  "            self.env = prefix + self._key.upper()", "            self.env = prefix + self._key", expect_rule="name.shape")
+V("C14-benign-guard-helper-var", "C14", "env value bound to a local before the skip test", CORE, expect="silent",
+  old="""                if (
+                    isinstance(field.env, str)
+                    and field.env
+                    and os.environ.get(field.env)
+                ):
+                    continue""",
+  new="""                if isinstance(field.env, str) and field.env and os.environ.get(field.env):
+                    continue""")
